@@ -43,6 +43,7 @@ def run(ctx):
     R3 = ctx.rule('C16.R3', 'digest / block sizes and the name registry agree with FIPS 180-4 / RFC 1321')
     R4 = ctx.rule('C16.R4', 'MD5 sine table, shift amounts and initial words; SHA-1 initial words, round constants and padding decision equal the standards')
     R6 = ctx.rule('C16.R6', 'AES-CBC (OpenSSL back-end): the chaining value lives in the object - every AES_cbc_encrypt call is given the member IV of its direction, set_iv fills both, and each direction uses its own key schedule')
+    R7 = ctx.rule('C16.R7', 'md5_process compresses the block it was handed: every pointer the message words are read through, and every copy into the word buffer, is derived from the `data` parameter (never from the state\'s pending-bytes buffer)')
     R5 = ctx.rule('C16.R5', 'hex key decoding: exactly [0-9A-Fa-f] accepted, value = nibble, odd length rejected')
 
     # ---------------- R1
@@ -123,21 +124,49 @@ def run(ctx):
 
     # ---------------- R2
     hi = P.fn(CR + '::hmac::init')
-    xs = []
+    bsv = [d['ref'] for i in hi.all_nodes() if hi.N(i)['k'] == 'DeclStmt' for d in hi.N(i)['decls'] if d.get('init') is not None and any(q.short_of(hi.callee(j)) == 'block_size' for j in hi.calls(d['init']))]
+
+    def whole(f, L, cont, bound_vars):
+        """loop L of f visits every element of container variable `cont`: index 0..size()/block size, or begin()..end()"""
+        cl = q.counting_loop(f, L)
+        if cl is not None and cl['start'] == 0 and cl['step'] == 1 and cl['op'] == '<':
+            b = cl['bound']
+            if f.ref_of(b) in bound_vars:
+                return True
+            return any(q.short_of(f.bcallee(c) or '') == 'size' and f.obj(c) is not None and f.ref_of(f.obj(c)) == cont for c in f.calls(b))
+        n_ = f.N(L)
+        if n_['k'] == 'CXXForRangeStmt':
+            return cont in f.subtree_refs(n_.get('range', L))
+        if n_['k'] == 'ForStmt' and n_.get('init', -1) is not None and n_.get('init', -1) >= 0 and n_.get('cond', -1) is not None and n_.get('cond', -1) >= 0:
+            b_ok = any(q.short_of(f.bcallee(c) or '') == 'begin' and f.obj(c) is not None and f.ref_of(f.obj(c)) == cont for c in f.calls(n_['init']))
+            e_ok = any(q.short_of(f.bcallee(c) or '') == 'end' and f.obj(c) is not None and f.ref_of(f.obj(c)) == cont for c in f.calls(n_['cond']))
+            inc = n_.get('inc', -1)
+            esc = [j for j in f.walk(n_['body']) if f.N(j)['k'] in ('BreakStmt', 'ReturnStmt', 'GotoStmt', 'ContinueStmt')]
+            arith = [j for part in (n_['init'], n_['cond']) for j in f.walk(part) if f.N(j).get('op') in ('+', '-', '+=', '-=', '++', '--') and f.N(j)['k'] in ('BinaryOperator', 'CXXOperatorCallExpr', 'UnaryOperator', 'CompoundAssignOperator')]
+            return b_ok and e_ok and inc is not None and inc >= 0 and not esc and not arith
+        return False
+    xs = []        # (pad variable, constant, site, whole block covered)
     for i in hi.all_nodes():
         n = hi.N(i)
         if n['k'] == 'CompoundAssignOperator' and n.get('op') == '^=':
-            tgt = [r for r in hi.subtree_refs(n['ch'][0]) if r.startswith('v:') and 'pad' in r]
-            xs.append((tgt[0].split('@')[0][2:] if tgt else '?', hi.const_value(n['ch'][1]), i))
-    ctx.check(sorted((a, b) for a, b, _ in xs) == [('ipad', 0x36), ('opad', 0x5c)], R2, 'hmac::init:pads-0x36-0x5c', 'pad constants are %s' % [(a, hex(b or 0)) for a, b, _ in xs], hi.where)
-    lp = [L for L in q.loops(hi) if any(hi.contains(L, i) for _, _, i in xs)]
-    ok = len(lp) == 1
-    if ok:
-        L = hi.N(lp[0])
-        bs = [d['ref'] for i in hi.all_nodes() if hi.N(i)['k'] == 'DeclStmt' for d in hi.N(i)['decls'] if d.get('init') is not None and any(q.short_of(hi.callee(j)) == 'block_size' for j in hi.calls(d['init']))]
-        cond = hi.N(hi.strip(L['cond']))
-        ok = bool(bs) and cond.get('op') == '<' and hi.ref_of(cond['ch'][1]) == bs[0] and hi.const_value(hi.N(hi.strip(L['init']))['decls'][0].get('init')) == 0 if hi.N(hi.strip(L['init']))['k'] == 'DeclStmt' else False
-    ctx.check(ok, R2, 'hmac::init:pads-cover-whole-block', 'pad loop does not run over the whole block', hi.where)
+            tgt = [r for r in hi.subtree_refs(n['ch'][0]) if r.startswith('v:') and r not in [x for L in q.enclosing_loops(hi, i) for x in [(q.counting_loop(hi, L) or {}).get('var')]]]
+            lp = q.enclosing_loops(hi, i)
+            xs.append((tgt[0] if tgt else '?', hi.const_value(n['ch'][1]), i, len(lp) == 1 and bool(tgt) and whole(hi, lp[0], tgt[0], bsv)))
+    for c in hi.calls():
+        g = P.fns.get(hi.N(c).get('callee') or '')
+        a = hi.args(c)
+        if g is None or g.entry is None or len(a) != 2 or len(g.params) != 2 or hi.const_value(a[1]) is None or not (hi.ref_of(a[0]) or '').startswith('v:'):
+            continue
+        gx = [j for j in g.all_nodes() if g.N(j)['k'] == 'CompoundAssignOperator' and g.N(j).get('op') == '^=']
+        if len(gx) != 1 or g.ref_of(g.N(gx[0])['ch'][1]) != g.params[1]['ref']:
+            continue
+        lp = q.enclosing_loops(g, gx[0])
+        tgt_ok = g.params[0]['ref'] in q.deep_refs(g, g.N(gx[0])['ch'][0]) or (len(lp) == 1 and g.params[0]['ref'] in g.subtree_refs(g.N(lp[0]).get('init', lp[0]) if g.N(lp[0]).get('init', -1) not in (None, -1) else lp[0]))
+        others = [w for w in q.writes_to(g, g.params[0]['ref']) if w != gx[0] and not g.contains(gx[0], w) and not g.contains(w, gx[0])]
+        xs.append((hi.ref_of(a[0]), hi.const_value(a[1]), c, tgt_ok and len(lp) == 1 and whole(g, lp[0], g.params[0]['ref'], []) and not [w for w in others if g.N(w)['k'] in ('BinaryOperator', 'CompoundAssignOperator')]))
+    nm = lambda r: r.split('@')[0][2:] if r and r != '?' else '?'
+    ctx.check(sorted((nm(a), b) for a, b, _, _ in xs) == [('ipad', 0x36), ('opad', 0x5c)], R2, 'hmac::init:pads-0x36-0x5c', 'pad constants are %s' % [(nm(a), hex(b or 0)) for a, b, _, _ in xs], hi.where)
+    ctx.check(bool(xs) and all(w_ for _, _, _, w_ in xs), R2, 'hmac::init:pads-cover-whole-block', 'pad loop does not run over the whole block', hi.where)
     apps = [i for i in hi.calls() if q.short_of(hi.callee(i)) == 'append' and hi.bcallee(i) == CR + '::message_digest::append']
     side = {}
     for i in apps:
@@ -303,7 +332,37 @@ def run(ctx):
                         tg.add(ap_[-1].rsplit('::', 1)[-1])
             okiv = tg == {'iv_enc_', 'iv_dec_'}
         ctx.check(okiv, R6, 'set_iv:fills-both-directions', 'set_iv does not initialise both chaining buffers', siv[0].where if siv else sites[0][0].where)
+
+    # ---------------- R7 md5_process reads the block it is given
+    datap = q.param_by_index(mp, 1)
+    ctx.require(datap is not None and 'char' in (mp.types[mp.params[1]['t']] or ''), 'C16.R7: md5_process(state, data) signature changed')
+    n7 = 0
+    for i in mp.calls():
+        if mp.callee(i) in ('memcpy', 'memmove', '__builtin_memcpy'):
+            a = mp.args(i)
+            n7 += 1
+            ctx.check(mp.ref_of(a[1]) == datap and (mp.ref_of(a[0]) or '').startswith('v:') and mp.const_value(a[2]) == 64, R7, 'md5_process:copy#%d:64-bytes-from-data' % n7,
+                      'the word buffer is not filled with the 64 bytes of the block handed in', mp.loc(i))
+    locals_ptr = set()
+    for i in mp.all_nodes():
+        if mp.N(i)['k'] == 'DeclStmt':
+            for d in mp.N(i)['decls']:
+                if (mp.types[d['t']] or '').rstrip().endswith('*'):
+                    locals_ptr.add(d['ref'])
+    for v in sorted(locals_ptr):
+        for (dn, val) in mp.defs_of_var(v):
+            if val is None:
+                continue
+            mval = mp.N(mp.strip(val))
+            if mval['k'] in ('BinaryOperator', 'CompoundAssignOperator', 'UnaryOperator') and v in mp.subtree_refs(val) and mp.const_value(mval['ch'][-1]) is not None:
+                continue            # stepping the pointer itself (xp += 4)
+            refs = set(r for r in mp.subtree_refs(val) if r.startswith(('v:', 'p:', 'f:', 'sv:', 'g:')))
+            n7 += 1
+            ctx.check(bool(refs) and all(r == datap or r.startswith('v:') for r in refs), R7, 'md5_process:%s:derived-from-data' % v.split(':')[1].split('@')[0],
+                      'message words are read through a pointer that is not derived from the block handed in: %s' % sorted(refs - {datap}), mp.loc(dn))
+    ctx.check(n7 >= 2, R7, 'md5_process:block-sources-found', 'expected the aligned / unaligned sources of the message words', mp.where)
     ctx.floor(R1, 14)
+    ctx.floor(R7, 3)
     ctx.floor(R2, 6)
     ctx.floor(R3, 20)
     ctx.floor(R4, 7)
